@@ -1,8 +1,143 @@
-(** C02 — property theorems (placeholder until DD/ApplyProofs.v lands). *)
-From OxiVerif Require Import DD.Sem.
-From Coq Require Import Bool.
+(** C02 — property theorems for the plain BDD kind (proved in DD/BuildProofs.v,
+    DD/ApplyProofs.v, DD/ApplyEvalProofs.v; models in DD/Build.v, DD/Apply.v). *)
+From Coq Require Import List NArith PArith Bool Arith FMapPositive.
+From OxiVerif Require Import DD.Table DD.TableProofs DD.Canon DD.Sem DD.Build DD.BuildProofs
+  DD.Apply DD.ApplyProofs DD.ApplyEvalProofs DD.ApplyExamples.
+Import ListNotations.
 
 (** the spec of [imp_strict] is the strict reading of implication: [a < b] *)
 Theorem C02_imp_strict_spec : forall x y, eval_bop OImpStrict x y = negb (implb y x).
 Proof. intros [] []; reflexivity. Qed.
 Print Assumptions C02_imp_strict_spec.
+
+(** the executable checker decides the invariant assumed below *)
+Theorem C02_bdd_ok_b_spec : forall s, bdd_ok_b s = true <-> BddOK s.
+Proof. exact bdd_ok_b_spec. Qed.
+Print Assumptions C02_bdd_ok_b_spec.
+
+(** node construction ([reduce] + [get_or_insert]) *)
+Theorem C02_mk_node_wf : forall s lvl ch s' e,
+  WF s -> kary (s_kind s) -> lvl < nlevels s -> children_ok s lvl ch ->
+  mk_node s lvl ch = (s', e) ->
+  WF s' /\ extends s s' /\ ref_ok s' (eref e) /\ etag e = false /\
+  (forall f r c, ref_ok s r -> semk s' f r c = semk s f r c) /\
+  (forall c i ci, c lvl = i -> nth_error ch i = Some ci ->
+     semk s' (S (nlevels s')) (eref e) c = semk s (S (nlevels s)) (eref ci) c) /\
+  lvl <= rlevel s' (eref e).
+Proof. exact mk_node_wf. Qed.
+Print Assumptions C02_mk_node_wf.
+
+(** every case of [terminal_bin] (all 8 operators, the [f == g] short-cuts,
+    operand swaps, [Not] results) agrees with the connective *)
+Theorem C02_terminal_bin_sound : forall gt s op f g phi psi,
+  BddOK s -> Den s f phi -> Den s g psi ->
+  match terminal_bin gt s op f g with
+  | TDone r => Den s r (fun c => eval_bop op (phi c) (psi c))
+  | TNot r => (r = f \/ r = g) /\
+              exists rho, Den s r rho /\
+                forall c, bchoice c -> eval_bop op (phi c) (psi c) = negb (rho c)
+  | TBin o a b => o = op /\ (exists idf, f = RN idf) /\ (exists idg, g = RN idg) /\
+                  ((a = f /\ b = g) \/
+                   (a = g /\ b = f /\ forall x y, eval_bop op x y = eval_bop op y x))
+  | TFail => False
+  end.
+Proof. exact terminal_bin_sound. Qed.
+Print Assumptions C02_terminal_bin_sound.
+
+(** not *)
+Theorem C02_apply_not_sound : forall C cget cadd, lossy cget cadd ->
+  forall fuel s (c : C) f,
+  BddOK s -> CacheOK cget s c -> ref_ok s f -> S (nlevels s) <= fuel ->
+  exists s' c' r, apply_not C cget cadd fuel s c f = Some (s', c', r) /\
+    BddOK s' /\ extends s s' /\ CacheOK cget s' c' /\ ref_ok s' r /\
+    forall c0, bchoice c0 -> exists x,
+      semk s (S (nlevels s)) f c0 = Some (b2c x) /\
+      semk s' (S (nlevels s')) r c0 = Some (b2c (negb x)).
+Proof. exact apply_not_sound. Qed.
+Print Assumptions C02_apply_not_sound.
+
+(** and, or, nand, nor, xor, equiv, imp, imp_strict *)
+Theorem C02_apply_bin_sound : forall gt C cget cadd, lossy cget cadd ->
+  forall op fuel s (c : C) f g,
+  BddOK s -> CacheOK cget s c -> ref_ok s f -> ref_ok s g -> S (nlevels s) <= fuel ->
+  exists s' c' r, apply_bin gt C cget cadd fuel s c op f g = Some (s', c', r) /\
+    BddOK s' /\ extends s s' /\ CacheOK cget s' c' /\ ref_ok s' r /\
+    forall c0, bchoice c0 -> exists x y,
+      semk s (S (nlevels s)) f c0 = Some (b2c x) /\
+      semk s (S (nlevels s)) g c0 = Some (b2c y) /\
+      semk s' (S (nlevels s')) r c0 = Some (b2c (eval_bop op x y)).
+Proof. exact apply_bin_sound. Qed.
+Print Assumptions C02_apply_bin_sound.
+
+(** ite *)
+Theorem C02_apply_ite_sound : forall gt C cget cadd, lossy cget cadd ->
+  forall fuel s (c : C) f g h,
+  BddOK s -> CacheOK cget s c -> ref_ok s f -> ref_ok s g -> ref_ok s h ->
+  S (nlevels s) <= fuel ->
+  exists s' c' r, apply_ite gt C cget cadd fuel s c f g h = Some (s', c', r) /\
+    BddOK s' /\ extends s s' /\ CacheOK cget s' c' /\ ref_ok s' r /\
+    forall c0, bchoice c0 -> exists x y z,
+      semk s (S (nlevels s)) f c0 = Some (b2c x) /\
+      semk s (S (nlevels s)) g c0 = Some (b2c y) /\
+      semk s (S (nlevels s)) h c0 = Some (b2c z) /\
+      semk s' (S (nlevels s')) r c0 = Some (b2c (if x then y else z)).
+Proof. exact apply_ite_sound. Qed.
+Print Assumptions C02_apply_ite_sound.
+
+(** constants *)
+Theorem C02_mk_const_sem : forall s b, BddOK s ->
+  exists r, mk_const s b = Some r /\ Den s r (fun _ => b).
+Proof. exact mk_const_sem. Qed.
+Print Assumptions C02_mk_const_sem.
+
+(** the variable constructors ([neg = true]: the negated variable), as Boolean
+    functions of assignments *)
+Theorem C02_mk_var_bfun : forall s v neg, BddOK s -> v < nlevels s ->
+  exists s' r, mk_var s v neg = Some (s', r) /\ BddOK s' /\ extends s s' /\ ref_ok s' r /\
+    forall a, bfun_of s' r a = xorb neg (var_s v a).
+Proof. exact mk_var_bfun. Qed.
+Print Assumptions C02_mk_var_bfun.
+
+(** eval: the walk of [eval_edge] is the node-by-node interpretation *)
+Theorem C02_eval_walk_sem : forall s, WF s -> forall fuel r ch,
+  eval_walk fuel s r ch =
+  option_map (fun v => N.eqb v 1) (semk s fuel r (fun l => if ch l then 1 else 0)).
+Proof. exact eval_walk_sem. Qed.
+Print Assumptions C02_eval_walk_sem.
+
+Theorem C02_eval_edge_assignment : forall s r (a : asg) args, BddOK s -> ref_ok s r ->
+  (forall v b, In (v, b) args -> b = a v /\ v < nlevels s) ->
+  (forall v, v < nlevels s -> In v (map fst args)) ->
+  eval_edge s r args = Some (bfun_of s r a).
+Proof. exact eval_edge_assignment. Qed.
+Print Assumptions C02_eval_edge_assignment.
+
+(** cofactors = the two Shannon cofactors w.r.t. the top-most variable *)
+Theorem C02_cofactors_cof : forall s r t e, BddOK s -> ref_ok s r ->
+  cofactors s r = Some (t, e) ->
+  exists v, nth_error (s_l2v s) (rlevel s r) = Some v /\
+    forall a, bfun_of s t a = cof (bfun_of s r) v true a /\
+              bfun_of s e a = cof (bfun_of s r) v false a.
+Proof. exact cofactors_cof. Qed.
+Print Assumptions C02_cofactors_cof.
+
+(** the operators in terms of Boolean functions of assignments ([Sem.lift2]) *)
+Theorem C02_apply_bin_bfun : forall gt C cget cadd, lossy cget cadd ->
+  forall op s (c : C) f g,
+  BddOK s -> CacheOK cget s c -> ref_ok s f -> ref_ok s g ->
+  exists s' c' r, apply_bin gt C cget cadd (S (nlevels s)) s c op f g = Some (s', c', r) /\
+    BddOK s' /\ extends s s' /\
+    forall a, bfun_of s' r a = lift2 op (bfun_of s f) (bfun_of s g) a.
+Proof. exact apply_bin_bfun. Qed.
+Print Assumptions C02_apply_bin_bfun.
+
+(** the hypotheses are satisfiable and the algorithms run *)
+Theorem C02_example :
+  BddOK ex_snap /\ CacheOK ac_get ex_snap [] /\ lossy ac_get ac_add /\
+  nodes_of (apply_bin gt_id acache ac_get ac_add (S (nlevels ex_snap)) ex_snap [] OAnd (RN 3) (RN 1)) =
+  Some ([(4%positive, mkNode 0 [E (RN 1); E (RT 0)] 0 0);
+         (2%positive, mkNode 1 [E (RT 0); E (RT 1)] 1 1);
+         (1%positive, mkNode 1 [E (RT 1); E (RT 0)] 1 1);
+         (3%positive, mkNode 0 [E (RN 1); E (RN 2)] 0 1)], RN 4).
+Proof. exact (conj ex_snap_bdd_ok (conj ex_cache_ok (conj ac_lossy ex_apply_and))). Qed.
+Print Assumptions C02_example.
